@@ -262,22 +262,27 @@ def main(argv):
         print('KNOWN-FINDING: property=%s %s (%d enumerated cases)' % (pid, what, n))
     status = 0
     reported = 0
+    unconfirmed = 0
     for v, n in sorted(fresh, key=lambda x: case_size(x[0])):
         if reported >= 8:
             break
         path = write_replay(pid, v)
         ok, outs = confirm(pid, path)
         if not ok:
-            print('harness error: candidate violation did not reproduce in two fresh runs: %s %r'
-                  % (path, outs))
-            status = max(status, 2)
+            # a deviation seen in the exploring process that a fresh interpreter does not show depends on process history
+            # (e.g. a process-wide cache); it is reported, and decides the exit status only if nothing was confirmed
+            print('unconfirmed candidate (did not reproduce in two fresh runs; history-dependent?): %s %r' % (path, outs))
+            unconfirmed += 1
             continue
         print('VIOLATION property=%s replay=%s' % (pid, path))
         print('  signature=%s cases=%d' % (sig_key(v.get('signature')), n))
         print('  expected: %s' % (str(v.get('expected'))[:300],))
         print('  observed: %s' % (str(v.get('observed'))[:300],))
         reported += 1
-        status = 1 if status != 2 else 2
+        status = 1
+    if unconfirmed and not reported:
+        print('harness error: %d candidate violations, none reproducible in a fresh interpreter' % unconfirmed)
+        status = 2
 
     # --- evidence ---------------------------------------------------------------------
     coverage = dict(coverage)
